@@ -93,6 +93,14 @@ func buildTarget(sender util.Uint160, name string, u util.Uint160) *neotest.Cont
 		emit.Opcodes(w, opcode.RET)
 	})
 	both("nop", func(w *io.BinWriter) { retNull(w) })
+	// putk(key): used by the persisted (real block) variant, one fresh key per transaction
+	off := a.method("putk", 1, false, anyT, func(w *io.BinWriter) {
+		emit.Bytes(w, []byte("v"))
+		emit.Opcodes(w, opcode.SWAP)
+		emit.Syscall(w, interopnames.SystemStorageLocalPut)
+		retNull(w)
+	})
+	a.alias("putkS", 1, true, anyT, off)
 	a.method("setup", 0, false, anyT, func(w *io.BinWriter) {
 		emit.Bytes(w, []byte("1"))
 		emit.Bytes(w, []byte("pre"))
